@@ -1,5 +1,7 @@
 package main
 
+// verif:tags verif_c09
+
 // C09: positions are values — moves and clones never alias or alter their source.
 //
 // One CASE = one operation sequence over a set of handles (object ids, numbered in order of allocation):
